@@ -51,6 +51,8 @@ class Summaries:
                     f = g
                     break
         if f is None:
+            if self.total_std(name):
+                return self.total(ctx)
             return self.unknown(ctx)
         self.used[name] = self.used.get(name, 0) + 1
         r = f(ctx)
@@ -59,6 +61,99 @@ class Summaries:
         if isinstance(r, V):
             return [(ctx.st, r)]
         return r
+
+    # ------------------------------------------------------------------
+    # library functions that are documented never to panic (for any arguments): modelled generically
+    # as "unknown result of the return type; everything reachable through a `&mut` argument is
+    # forgotten; closure arguments are analysed once on arbitrary inputs".  Functions that CAN panic
+    # (indexing, slicing, unwrap/expect, insert/remove by index, split_at, chunks(0), clamp, sum/product,
+    # pow, borrow_mut, ...) are deliberately absent: they need a real summary with an obligation.
+    TOTAL_METHODS = (
+        # Option / Result
+        'is_some|is_none|is_ok|is_err|ok|err|as_ref|as_mut|as_deref|as_deref_mut|take|replace|cloned|copied|filter|or_else|or|and|and_then|xor|zip|'
+        'unwrap_or_else|unwrap_or_default|unwrap_or|map_or|map_or_else|map|map_err|ok_or|ok_or_else|iter|iter_mut|get_or_insert|get_or_insert_with|insert|flatten|transpose|is_some_and|is_none_or|is_ok_and|'
+        # strings
+        'new|with_capacity|len|is_empty|clear|push|push_str|pop|as_str|as_bytes|chars|bytes|char_indices|to_lowercase|to_uppercase|to_ascii_lowercase|to_ascii_uppercase|'
+        'trim|trim_start|trim_end|trim_matches|trim_start_matches|trim_end_matches|strip_prefix|strip_suffix|starts_with|ends_with|contains|find|rfind|matches|split|rsplit|splitn|split_once|rsplit_once|'
+        'split_whitespace|split_terminator|lines|is_char_boundary|from_utf8_lossy|from_utf8|to_string|to_owned|into_owned|into_boxed_str|into_bytes|is_ascii|eq_ignore_ascii_case|parse|'
+        'capacity|reserve|shrink_to_fit|extend|extend_from_slice|append|reverse|sort|sort_unstable|sort_by|sort_by_key|sort_unstable_by|sort_unstable_by_key|dedup|dedup_by_key|retain|retain_mut|to_vec|concat|join|'
+        'first|last|first_mut|last_mut|get|get_mut|contains_key|binary_search|binary_search_by|binary_search_by_key|fill|as_slice|as_mut_slice|truncate|split_first|split_last|iter|into_iter|'
+        # maps / sets
+        'remove|remove_entry|entry|or_insert|or_insert_with|or_default|and_modify|keys|values|values_mut|into_keys|into_values|drain|union|intersection|difference|symmetric_difference|'
+        'is_subset|is_superset|is_disjoint|get_key_value|'
+        # iterators
+        'filter_map|enumerate|chain|rev|skip|take|skip_while|take_while|peekable|flat_map|fuse|inspect|count|min|max|min_by|max_by|min_by_key|max_by_key|fold|try_fold|all|any|find|find_map|position|rposition|'
+        'collect|for_each|nth|next|next_back|peek|by_ref|size_hint|last|unzip|partition|cmp|partial_cmp|eq|ne|lt|le|gt|ge|'
+        # numbers / chars
+        'checked_add|checked_sub|checked_mul|checked_div|checked_rem|checked_neg|checked_shl|checked_shr|checked_pow|saturating_add|saturating_sub|saturating_mul|saturating_pow|'
+        'wrapping_add|wrapping_sub|wrapping_mul|wrapping_neg|wrapping_shl|wrapping_shr|overflowing_add|overflowing_sub|overflowing_mul|abs_diff|leading_zeros|trailing_zeros|count_ones|count_zeros|'
+        'is_power_of_two|signum|is_positive|is_negative|rotate_left|rotate_right|swap_bytes|to_be|to_le|from_be|from_le|'
+        'is_alphabetic|is_numeric|is_alphanumeric|is_whitespace|is_control|is_uppercase|is_lowercase|is_ascii_alphabetic|is_ascii_digit|is_ascii_alphanumeric|is_ascii_punctuation|'
+        'is_ascii_graphic|is_ascii_whitespace|is_ascii_control|is_ascii_hexdigit|is_ascii_uppercase|is_ascii_lowercase|to_digit|len_utf8|len_utf16|from_u32|encode_utf8|'
+        # generic traits
+        'clone|clone_from|default|from|into|try_from|try_into|as_ref|as_mut|borrow|deref|deref_mut|fmt|hash|drop')
+    TOTAL_RX = None
+
+    def total_std(self, name):
+        import re as _re
+        if Summaries.TOTAL_RX is None:
+            Summaries.TOTAL_RX = _re.compile(r'(?:^|::|>::)(?:%s)(?:::<.*>)?$' % Summaries.TOTAL_METHODS)
+        if not (name.startswith('std::') or name.startswith('core::') or name.startswith('alloc::') or name.startswith('<')):
+            return False
+        # crate paths inside <..> qualifiers must be std types or primitives
+        if name.startswith('<') and not _re.match(r'^<(&|\[|\(|std::|core::|alloc::|[a-z0-9]+ as |[A-Z] as |I as |T as )', name):
+            if not any(name.startswith('<' + p) for p in ('char', 'u8', 'u16', 'u32', 'u64', 'usize', 'i8', 'i16', 'i32', 'i64', 'isize', 'bool', 'str', 'String')):
+                return False
+        if any(bad in name for bad in ('RefCell', 'sync::mpsc', 'thread::', 'process::', 'fs::', 'net::', 'env::')):
+            return False
+        # index / range taking methods of sequences and strings can panic
+        if _re.search(r'(vec::Vec|VecDeque|impl \[T\]|slice::)', name) and _re.search(
+                r'::(remove|insert|drain|swap_remove|split_off|swap|split_at|split_at_mut|copy_from_slice|clone_from_slice|rotate_left|rotate_right|chunks|chunks_exact|windows|copy_within)(::<.*>)?$', name):
+            return False
+        if _re.search(r'(string::String|impl str)', name) and _re.search(
+                r'::(remove|insert|insert_str|drain|truncate|split_off|split_at|replace_range)(::<.*>)?$', name):
+            return False
+        return Summaries.TOTAL_RX.search(name) is not None
+
+    def total(self, ctx):
+        """generic model of a never-panicking library function"""
+        eng = self.eng
+        st = ctx.st
+        name = ctx.callee
+        self.used['total:' + name] = self.used.get('total:' + name, 0) + 1
+        for a in ctx.args:
+            if isinstance(a, ClosureV):
+                body = eng.prog.bodies.get(a.func)
+                if body is not None:
+                    s2 = st.fork()
+                    args = [eng.mk_default(s2, body.locals[i]['ty']) for i in range(2, body.arg_count + 1)]
+                    try:
+                        eng.call_value(s2, a, args, ctx.depth, ctx.fr, ctx.bi)
+                    except Exception:
+                        pass
+            if isinstance(a, RefV) and a.mut:
+                try:
+                    cur = eng.read(st, a.path)
+                    eng.write(st, a.path, self.havoc_value(st, cur), log=(a.path[0] == ('H', 'S')))
+                except Exception:
+                    pass
+        return [(st, eng.mk_default(st, ctx.ret_ty))]
+
+    def havoc_value(self, st, v):
+        eng = self.eng
+        if isinstance(v, CollV):
+            return CollV(v.kind, v.ty, v.cid, v.ver + 1, eng.fresh_num(st, 'usize', 0, 2**40) if v.kind in ('vec', 'slice') else None, None, None, ('havoc', v.prov))
+        if isinstance(v, StrV):
+            return StrV(None, oid=next(_c), prov=('havoc',))
+        if isinstance(v, NumV):
+            return eng.fresh_num(st, v.ty if v.ty in INT_RANGES else 'u64')
+        if isinstance(v, BoolV):
+            return BoolV(None, ('fact', ('havoc', next(_c))))
+        if isinstance(v, EnumV):
+            return eng.mk_default(st, v.ty)
+        if isinstance(v, StructV):
+            return StructV(v.ty, {}, None)
+        return v
 
     def unknown(self, ctx):
         name = ctx.callee or '<indirect>'
@@ -137,7 +232,7 @@ class Summaries:
             if path is None:
                 return None
             root, elems = path
-            out = [root[-1] if root[0] == 'H' else '_']
+            out = [root[-1] if root[0] == 'H' else '_%s' % (root[-1],)]
             for e in elems:
                 if e[0] == 'f':
                     out.append(e[1])
@@ -1686,31 +1781,39 @@ class Summaries:
             r = ctx.args[0]
             path, c = coll_at(ctx, r, 'vec')
             rty = ctx.ret_ty
-            log(ctx, 'vec.pop', spath(path))
             if c.known is not None:
                 if len(c.known) == 0:
+                    log(ctx, 'vec.pop', spath(path), 'none')
                     return none(rty)
                 v = c.known[-1]
+                log(ctx, 'vec.pop', spath(path), v)
                 bump(ctx, path, c, known=c.known[:-1], length=NumV(None, len(c.known) - 1, 'usize'))
                 return some(rty, v)
-            e = inst(ctx.st, c.elem) if c.elem is not None else eng.mk_default(ctx.st, elem_type(c.ty, 'vec'))
+            e = inst(ctx.st, c.elem) if c.elem is not None else eng.materialise_struct(ctx.st, elem_type(c.ty, 'vec'), name='popped')
             st = ctx.st
             if isinstance(c.length, NumV):
                 r0 = eng.prove_cmp(st, 'ge', c.length, NumV(None, 1, 'usize'))
                 if r0 is True:
+                    log(ctx, 'vec.pop', spath(path), e)
                     bump(ctx, path, c, length=NumV(c.length.sym, c.length.k - 1, 'usize'))
                     return some(rty, e)
                 if r0 is False:
+                    log(ctx, 'vec.pop', spath(path), 'none')
                     return none(rty)
                 s2 = st.fork()
                 out = []
                 if eng.assume_cmp(st, 'ge', c.length, NumV(None, 1, 'usize')):
+                    log(ctx, 'vec.pop', spath(path), e)
                     bump(ctx, path, c, length=NumV(c.length.sym, c.length.k - 1, 'usize'))
                     out.append((st, some(rty, e)))
                 if eng.assume_cmp(s2, 'eq', c.length, NumV(None, 0, 'usize')):
+                    c3 = with_state(ctx, s2)
+                    log(c3, 'vec.pop', spath(path), 'none')
                     out.append((s2, none(rty)))
                 return out
             s2 = st.fork()
+            log(ctx, 'vec.pop', spath(path), e)
+            log(with_state(ctx, s2), 'vec.pop', spath(path), 'none')
             bump(ctx, path, c)
             return [(st, some(rty, e)), (s2, none(rty))]
 
@@ -1799,6 +1902,23 @@ class Summaries:
             if path is not None:
                 return RefV((path[0], path[1] + (('e', i),)))
             return eng.mk_default(st, ctx.ret_ty)
+
+        @regx(r'^std::string::String::drain$|^std::vec::Vec::<T, A>::drain$')
+        def _(ctx):
+            r, rng = ctx.args[0], ctx.args[1]
+            full = isinstance(rng, StructV) and 'RangeFull' in rng.ty or rng is UNIT
+            ctx.oblige('bounds', 'drain range within the sequence (and on char boundaries)', bool(full), 'range %r' % (rng,))
+            cur = deref1(ctx, r)
+            if isinstance(cur, StrV):
+                it = IterV('chars', ctx.ret_ty, (cur,), iid=next(_c))
+                if isinstance(r, RefV):
+                    eng.write(ctx.st, r.path, StrV('', prov=('drained',)))
+                return it
+            path, c = coll_at(ctx, r)
+            root = ('H', 'drained%d' % next(_c))
+            ctx.st.store[root] = c
+            bump(ctx, path, c, known=(), length=NumV(None, 0, 'usize'))
+            return IterV('coll', ctx.ret_ty, ((root, ()), c.key(), 'val'), iid=next(_c))
 
         @reg('std::vec::Vec::<T, A>::extend_from_slice')
         def _(ctx):
